@@ -159,8 +159,21 @@ def build64(defs):
     defs.append(("b64_disp_pad", "N", "%d%%N" % ord("=")))
     # Decoder::push / finalize
     imp = impl_body(src, r"impl<Builder:\s*OctetsBuilder>\s*Decoder<Builder>")
-    push = fn_body(imp, "push")
     fin = fn_body(imp, "finalize")
+    # Decoder::push is either the decoding step itself (errors other than the
+    # end-marker TrailingInput are not recorded) or a wrapper that makes every
+    # error final and delegates to `push_char` (pending/C18-base64-decoder.diff)
+    if re.search(r"\bfn\s+push_char\b", imp):
+        wrapper = fn_body(imp, "push")
+        one(r"^\s*if\s+let\s+Err\(err\)\s*=\s*self\.target\s*\{\s*return\s+Err\(err\);\s*\}\s*"
+            r"let\s+res\s*=\s*self\.push_char\(ch\);\s*"
+            r"if\s+let\s+Err\(err\)\s*=\s*res\s*\{\s*self\.target\s*=\s*Err\(err\);\s*\}\s*res\s*$",
+            wrapper, "Decoder::push sticky wrapper")
+        push = fn_body(imp, "push_char")
+        defs.append(("b64_push_sticky", "bool", "true"))
+    else:
+        push = fn_body(imp, "push")
+        defs.append(("b64_push_sticky", "bool", "false"))
     m = one(r"if\s+self\.next\s*==\s*%s\s*\{\s*self\.target\s*=\s*Err\(DecodeError::TrailingInput\);\s*return\s+Err\(DecodeError::TrailingInput\);\s*\}" % NUM, push, "Decoder::push eof check")
     defs.append(("b64_push_eof", "N", "%d%%N" % num(m.group(1))))
     m = one(r"if\s+ch\s*==\s*PAD\s*\{\s*if\s+self\.next\s*<\s*%s\s*\{\s*return\s+Err\(DecodeError::IllegalChar\(ch\)\);\s*\}\s*%s\s*\}" % (NUM, NUM), push, "Decoder::push pad branch")
